@@ -172,5 +172,49 @@ func init() {
 		e.sampleCounts()
 		e.drain()
 	})
+
+	// readers: several callers blocked in Result() / Err() / Wait() on ONE handle before the job
+	// finishes; every one of them must come back with that job's outcome (C07), after it (C05)
+	registerFamily("readers", []string{"C01", "C03", "C05", "C07", "C16"}, func(e *env) {
+		r := vt.Rand()
+		e.kind = e.p("kind", 1+r.Intn(2)) // error / result workers
+		e.conc = e.p("conc", 1+r.Intn(2))
+		e.mkWorker()
+		q := e.bind(pick(r, qFifo, qPrio))
+		nj := 1 + r.Intn(2)
+		var mine []*sub
+		for i := 0; i < nj; i++ {
+			mine = append(mine, e.add(q, 0, randOutcome(r), true, ""))
+		}
+		var jn joiner
+		nr := e.p("readers", 2+r.Intn(3))
+		for k := 0; k < nr; k++ {
+			s := mine[r.Intn(len(mine))]
+			jn.goClient("reader", func() {
+				for y := r.Intn(3); y > 0; y-- {
+					vt.Yield()
+				}
+				if r.Intn(4) == 0 {
+					e.waitJob(s)
+				}
+				e.resultJob(s)
+				if r.Intn(2) == 0 {
+					e.resultJob(s) // read back after the close
+				}
+			})
+		}
+		jn.goClient("opener", func() {
+			for y := r.Intn(6); y > 0; y-- {
+				vt.Yield()
+			}
+			e.openGates()
+		})
+		jn.wait()
+		e.drain()
+		for _, s := range mine {
+			e.resultJob(s)
+			e.statusJob(s)
+		}
+	})
 }
 
